@@ -26,6 +26,10 @@ class CCompositionMCNP:
     material of the block DATA
     '''
 
+    # keyword entries that take more than one value (MCNP 6.2: coefficients
+    # of the refractive index)
+    KEYWORD_VALUES = {'refc': 4, 'refs': 6}
+
     def __init__(self, l_materialCompositionParameters):
         '''
         Constructor
@@ -41,8 +45,8 @@ class CCompositionMCNP:
         while i < len(params):
             isotope = params[i]
             if isotope[0].isalpha():
-                # this is a keyword, skip it and its value
-                i += 2
+                # this is a keyword, skip it and its value(s)
+                i += 1 + self.KEYWORD_VALUES.get(isotope.lower(), 1)
                 continue
             if "." in isotope:
                 isotope = isotope.split(".")[0]
